@@ -636,7 +636,7 @@ func vC02GenCase(r *vRng, thorough bool) vSx {
 		g.start(c, -1, maxChunks)
 		started++
 	}
-	return vL(vLs(g.steps), vLs(g.msgs), vLs(vC01Script(r)))
+	return vL(vLs(g.steps), vLs(g.msgs), vLs(vC01Script(r, false)))
 }
 
 // thorough: short traces over an abstract alphabet, every combination
